@@ -136,6 +136,9 @@ func (r *Recorder) ev(n string, s *interpreter.State) {
 		if len(s.Scripts) < 2 {
 			r.flag(fmt.Sprintf("%s: State has %d scripts (the execution has at least two)", n, len(s.Scripts)))
 		}
+		// the accessors a debugger typically calls on a snapshot (a panic here is a panic of Execute)
+		_ = s.Opcode()
+		_ = s.RemainingScript()
 		// every snapshot locates itself inside the scripts it carries (State.Opcode() indexes them)
 		if s.ScriptIdx < 0 || (s.ScriptIdx >= len(s.Scripts) && n != "AC" && n != "OK" && n != "ER" && n != "AE" && n != "AS") {
 			r.flag(fmt.Sprintf("%s: State is at script %d but carries %d scripts", n, s.ScriptIdx, len(s.Scripts)))
@@ -199,7 +202,15 @@ func (r *Recorder) BeforeScriptChange(s *interpreter.State)        { r.ev("BC", 
 func (r *Recorder) AfterScriptChange(s *interpreter.State)         { r.ev("AC", s) }
 func (r *Recorder) AfterSuccess(s *interpreter.State)              { r.ev("OK", s) }
 func (r *Recorder) AfterError(s *interpreter.State, _ error)       { r.ev("ER", s) }
-func (r *Recorder) BeforeStackPush(s *interpreter.State, _ []byte) { r.ev("bp", s) }
+// scribbleData: the byte slices handed to the stack callbacks are stack data handed to a debugger too
+func (r *Recorder) scribbleData(bb []byte) {
+	if r.Scribble {
+		for i := range bb {
+			bb[i] += 0x5b
+		}
+	}
+}
+func (r *Recorder) BeforeStackPush(s *interpreter.State, bb []byte) { r.ev("bp", s); r.scribbleData(bb) }
 func (r *Recorder) AfterStackPush(s *interpreter.State, bb []byte) {
 	if s != nil {
 		top := func(st [][]byte) bool { return len(st) > 0 && bytes.Equal(st[len(st)-1], bb) }
@@ -208,9 +219,10 @@ func (r *Recorder) AfterStackPush(s *interpreter.State, bb []byte) {
 		}
 	}
 	r.ev("ap", s)
+	r.scribbleData(bb)
 }
 func (r *Recorder) BeforeStackPop(s *interpreter.State)          { r.ev("bq", s) }
-func (r *Recorder) AfterStackPop(s *interpreter.State, _ []byte) { r.ev("aq", s) }
+func (r *Recorder) AfterStackPop(s *interpreter.State, bb []byte) { r.ev("aq", s); r.scribbleData(bb) }
 
 func u32(n int) []byte {
 	b := make([]byte, 4)
